@@ -39,69 +39,6 @@ theorem tickLoop_log (n : Nat) : ∀ (c : Option Nat) (e : Exec) (log : List Nat
 theorem nextHot_head (id : Nat) (rest : List Nat) : nextHot (id :: rest) id = rest.head? := by
   simp [nextHot]
 
-/-- facts about one loop body on the head of the hot list -/
-structure StepFacts (e : Exec) (id : Nat) (rest : List Nat) (t : TaskSt) (s : Exec × Bool) : Prop where
-  inv : Inv s.1
-  hot : s.1.hot = rest ∨ (s.1.hot = rest ++ [id] ∧ s.2 = true)
-  frame : ∀ x, x ≠ id → s.1.get? x = e.get? x
-  polled : s.2 = t.word.notCancelled
-  gone : s.2 = false → inMap s.1 id = false
-  task : ∃ t', s.1.get? id = some t' ∧ t'.polls = t.polls + (if s.2 then 1 else 0) ∧
-          (inMap s.1 id = true → t'.word.notCancelled = true)
-  taskEq : s.1.get? id = some (runTask t).1
-  sub : ∀ x, inMap s.1 x = true → inMap e x = true
-  keep : ∀ x, x ≠ id → inMap e x = true → inMap s.1 x = true
-
-theorem tickStep_facts {e : Exec} (h : Inv e) {id : Nat} {rest : List Nat} (hh : e.hot = id :: rest) :
-    ∃ t, e.get? id = some t ∧ StepFacts e id rest t (tickStep e id) := by
-  have hinv := tickStep_inv h hh
-  obtain ⟨t, hg, ht, heq⟩ := tickStep_head h hh
-  obtain ⟨s1, s2, s3, s4, s5⟩ := runTask_spec t ht
-  have hnd := h.q.hnd
-  rw [hh, List.nodup_cons] at hnd
-  have hnc : id ∉ e.cold := fun hc => h.q.disj id (by simp [hh]) hc
-  have hl := get?_lt hg
-  refine ⟨t, hg, hinv, ?_, ?_, ?_, ?_, ?_, ?_, ?_, ?_⟩
-  · rw [heq]; cases hk : (runTask t).2.1 <;> simp [hk]
-  · intro x hx
-    rw [heq]; simp [Exec.get?, List.getElem?_set_ne (Ne.symm hx)]
-  · rw [heq]
-    cases hn : t.word.notCancelled
-    · simp [s3.mpr hn]
-    · have : (runTask t).2.1 ≠ .dropped := fun hd => by rw [s3.mp hd] at hn; cases hn
-      simp [this]
-  · rw [heq]; intro hp
-    simp at hp
-    simp [inMap_false_iff, hp, hnd.1, hnc]
-  · rw [heq]
-    refine ⟨(runTask t).1, by simp [Exec.get?, List.getElem?_set_self hl], ?_, ?_⟩
-    · by_cases hd : (runTask t).2.1 = .dropped
-      · simp [hd, s5 hd]
-      · simp [hd, s4 hd]
-    · intro hin
-      rw [inMap_iff] at hin
-      cases hk : (runTask t).2.1 <;> simp [hk, hnd.1, hnc] at hin
-      · exact (s2 (Or.inl hk)).2
-      · exact (s2 (Or.inr hk)).2
-  · rw [heq]; simp [Exec.get?, List.getElem?_set_self hl]
-  · intro x hx
-    rw [heq, inMap_iff] at hx
-    rw [inMap_iff, hh]
-    simp only [List.mem_append, List.mem_cons] at hx ⊢
-    rcases hx with (hx | hx) | (hx | hx)
-    · exact Or.inl (Or.inr hx)
-    · split at hx <;> simp at hx; exact Or.inl (Or.inl hx)
-    · exact Or.inr hx
-    · split at hx <;> simp at hx; exact Or.inl (Or.inl hx)
-  · intro x hne hx
-    rw [inMap_iff, hh] at hx
-    rw [heq, inMap_iff]
-    simp only [List.mem_append, List.mem_cons] at hx ⊢
-    rcases hx with (hx | hx) | hx
-    · exact absurd hx hne
-    · exact Or.inl (Or.inl hx)
-    · exact Or.inr (Or.inl hx)
-
 /-- induction principle for the loop of `tick` started at the head of the hot list: the cursor always is
 the head of the current hot list (the prefetched successor), and the loop ends early only when the list
 had a single element left -/
@@ -122,14 +59,15 @@ theorem tickLoop_induct (P : Nat → Exec → Exec × List Nat → Prop)
     intro e h
     rcases hh : e.hot with _ | ⟨id, rest⟩
     · simp only [List.head?_nil, tickLoop_none]; exact hnil _ e h hh
-    · obtain ⟨t, hg, sf⟩ := tickStep_facts h hh
+    · obtain ⟨t, hg, _, sf⟩ := tickStep_facts h hh
       simp only [List.head?_cons]
       rw [tickLoop_succ, hh, nextHot_head]
       rcases rest with _ | ⟨y, ys⟩
       · simp only [List.head?_nil, tickLoop_none, List.nil_append]
         exact hlast n e id t h hh hg sf
       · have hhd : (y :: ys).head? = (tickStep e id).1.hot.head? := by
-          rcases sf.hot with h1 | ⟨h1, _⟩ <;> rw [h1] <;> simp
+          obtain ⟨w, h1⟩ := sf.hot
+          rw [h1]; simp
         rw [hhd, tickLoop_log]
         have := hstep n e id (y :: ys) t _ h hh (by simp) hg sf rfl (ih _ sf.inv)
         simpa using this
@@ -179,9 +117,8 @@ theorem tickLoop_sub (n : Nat) (e : Exec) (h : Inv e) :
 theorem StepFacts.hot_get {e : Exec} {id : Nat} {rest : List Nat} {t : TaskSt} {s : Exec × Bool}
     (sf : StepFacts e id rest t s) {p x : Nat} (hp : rest[p]? = some x) : s.1.hot[p]? = some x := by
   have hl : p < rest.length := (List.getElem?_eq_some_iff.mp hp).1
-  rcases sf.hot with h1 | ⟨h1, _⟩ <;> rw [h1]
-  · exact hp
-  · rw [List.getElem?_append_left hl]; exact hp
+  obtain ⟨w, h1⟩ := sf.hot
+  rw [h1, List.getElem?_append_left hl]; exact hp
 
 /-- every task among the first `n` of the hot list is visited by `tick`: polled if live, dropped and
 removed if cancelled -/
@@ -255,43 +192,67 @@ theorem tickLoop_shift (n : Nat) (e : Exec) (h : Inv e) :
       have := hr p x (sf.hot_get hx) (by omega)
       simpa using this
 
-/-- `tick` polls in hot-queue order: the poll log starts with the first `n` hot tasks (when they are live) -/
+/-- `tick` polls in hot-queue order: position `p` of the poll log is position `p` of the hot list, as long
+as the hot tasks up to `p` are live (a cancelled one is dropped instead of polled) -/
 theorem tickLoop_order (n : Nat) (e : Exec) (h : Inv e) :
-    (∀ x, x ∈ e.hot.take n → liveIn e x) →
-      ∃ extra, (tickLoop n e.hot.head? e []).2 = e.hot.take n ++ extra := by
-  refine tickLoop_induct (fun n e r => (∀ x, x ∈ e.hot.take n → liveIn e x) → ∃ extra, r.2 = e.hot.take n ++ extra)
-    ?_ ?_ ?_ ?_ n e h
-  · intro e h _; exact ⟨[], by simp⟩
-  · intro _ e h hh _; exact ⟨[], by simp [hh]⟩
-  · intro n e id t h hh hg sf hl
-    obtain ⟨t', hg', hc⟩ := hl id (by simp [hh])
+    ∀ p x, p < n → e.hot[p]? = some x → (∀ q y, q ≤ p → e.hot[q]? = some y → liveIn e y) →
+      (tickLoop n e.hot.head? e []).2[p]? = some x := by
+  refine tickLoop_induct (fun n e r => ∀ p x, p < n → e.hot[p]? = some x →
+      (∀ q y, q ≤ p → e.hot[q]? = some y → liveIn e y) → r.2[p]? = some x) ?_ ?_ ?_ ?_ n e h
+  · intro e h p x hp; omega
+  · intro _ e h hh p x _ hx; simp [hh] at hx
+  · intro n e id t h hh hg sf p x _ hx hl
+    rw [hh] at hx
+    have hp0 : p = 0 := by
+      rcases p with _ | p
+      · rfl
+      · simp at hx
+    subst hp0
+    simp at hx; subst hx
+    obtain ⟨t', hg', hc⟩ := hl 0 id (Nat.le_refl _) (by simp [hh])
     rw [hg] at hg'; cases hg'
-    exact ⟨[], by simp [hh, sf.polled, hc]⟩
-  · intro n e id rest t r h hh hne hg sf _ hr hl
-    obtain ⟨t', hg', hc⟩ := hl id (by simp [hh])
+    simp [sf.polled, hc]
+  · intro n e id rest t r h hh hne hg sf _ hr p x hp hx hl
+    obtain ⟨t', hg', hc⟩ := hl 0 id (Nat.zero_le _) (by simp [hh])
     rw [hg] at hg'; cases hg'
     have hnd := h.q.hnd
     rw [hh, List.nodup_cons] at hnd
-    have hl' : ∀ x, x ∈ (tickStep e id).1.hot.take n → liveIn (tickStep e id).1 x := by
-      intro x hx
-      have hrest : x ∈ rest.take n → liveIn (tickStep e id).1 x := by
-        intro hxr
-        have hne' : x ≠ id := by
-          intro hxe; rw [hxe] at hxr; exact hnd.1 (List.mem_of_mem_take hxr)
-        exact (sf.live_frame hne').1.mpr (hl x (by simp [hh, hxr]))
-      rcases sf.hot with h1 | ⟨h1, _⟩
-      · rw [h1] at hx; exact hrest hx
-      · rw [h1, List.take_append] at hx
-        rcases List.mem_append.mp hx with hx | hx
-        · exact hrest hx
-        · have hxi : x = id := by simpa using List.mem_of_mem_take hx
-          subst hxi
-          obtain ⟨t', hg', _, hn⟩ := sf.task
-          exact ⟨t', hg', hn ((inMap_iff _ _).mpr (Or.inl (by simp [h1])))⟩
-    obtain ⟨extra, he⟩ := hr hl'
-    rcases sf.hot with h1 | ⟨h1, _⟩
-    · exact ⟨extra, by simp [hh, sf.polled, hc, he, h1]⟩
-    · exact ⟨List.take (n - rest.length) [id] ++ extra, by simp [hh, sf.polled, hc, he, h1, List.take_append]⟩
+    rw [hh] at hx
+    rcases p with _ | p
+    · simp at hx; subst hx
+      simp [sf.polled, hc]
+    · simp at hx
+      have hpl : p < rest.length := (List.getElem?_eq_some_iff.mp hx).1
+      obtain ⟨w, hw⟩ := sf.hot
+      have := hr p x (by omega) (sf.hot_get hx) (by
+        intro q y hq hy
+        rw [hw, List.getElem?_append_left (by omega)] at hy
+        have hne' : y ≠ id := by
+          intro hye; subst hye; exact hnd.1 (List.mem_of_getElem? hy)
+        exact (sf.live_frame hne').1.mpr (hl (q + 1) y (by omega) (by simp [hh, hy])))
+      simp [sf.polled, hc, this]
+
+/-- ... hence the log starts with the first `n` hot tasks when these are live -/
+theorem tickLoop_order_take (n : Nat) (e : Exec) (h : Inv e) (hl : ∀ x, x ∈ e.hot.take n → liveIn e x) :
+    ∃ extra, (tickLoop n e.hot.head? e []).2 = e.hot.take n ++ extra := by
+  refine ⟨(tickLoop n e.hot.head? e []).2.drop (e.hot.take n).length, ?_⟩
+  have key : (tickLoop n e.hot.head? e []).2.take (e.hot.take n).length = e.hot.take n := by
+    apply List.ext_getElem?
+    intro i
+    by_cases hi : i < (e.hot.take n).length
+    · have hin : i < n := by simp at hi; omega
+      have hx : e.hot[i]? = (e.hot.take n)[i]? := by simp [List.getElem?_take, hin]
+      obtain ⟨x, hxe⟩ : ∃ x, (e.hot.take n)[i]? = some x := ⟨_, List.getElem?_eq_getElem hi⟩
+      have := tickLoop_order n e h i x hin (by rw [hx, hxe]) (by
+        intro q y hq hy
+        apply hl y
+        have hqn : q < n := by omega
+        have : (e.hot.take n)[q]? = some y := by simp [List.getElem?_take, hqn, hy]
+        exact List.mem_of_getElem? this)
+      rw [List.getElem?_take, if_pos hi, this, hxe]
+    · rw [List.getElem?_eq_none (by simp at hi ⊢; omega), List.getElem?_eq_none (by omega)]
+  conv => lhs; rw [← List.take_append_drop (e.hot.take n).length (tickLoop n e.hot.head? e []).2]
+  rw [key]
 
 /-- polls happen exactly as logged: the poll counter of every task grows by its number of occurrences in
 the log, nothing else polls -/
